@@ -10,7 +10,7 @@ import squeeth_lib as L
 import squeeth_gen as G
 
 PROPERTY = "C14"
-LEAN_MODULES = ["Proofs.C14", "Proofs.C14.Window", "Proofs.C14.Liquidation", "Proofs.C14.Amounts", "Proofs.C14.Moves", "Proofs.C14.Update", "Proofs.C14.Completes"]
+LEAN_MODULES = ["Proofs.C14", "Proofs.C14.Window", "Proofs.C14.Liquidation", "Proofs.C14.Amounts", "Proofs.C14.Moves", "Proofs.C14.Update", "Proofs.C14.Completes", "Proofs.C14.Long"]
 DRIVERS = ["driver_squeeth"]
 RULE = ("sequences of vault operations (open_deposit_mint on new/existing/unknown vaults with and without an LP position, deposit, "
         "deposit/withdraw_uni_position, burn_and_withdraw, liquidate, update, _reduce_debt, remove_liquidity on the pool) and of the long side "
